@@ -66,7 +66,7 @@ Law ==
     [] c.law = "stable" ->                                                \* stable variants keep equal keys in input order
          LET r == SortByKeyStable(x) IN
            /\ IsPerm(r, x) /\ Ordered(r, "key")
-           /\ \A i \in 1..Len(r) : \A j \in (i + 1)..Len(r) : (r[i] \div 10 = r[j] \div 10) => (r[i] % 10 < r[j] % 10)
+           /\ \A i \in 1..Len(r) : \A j \in (i + 1)..Len(r) : (r[i] \div 100 = r[j] \div 100) => (r[i] % 100 < r[j] % 100)
     [] c.law = "atoi" ->                                                  \* Atoi of an Itoa
          LET p == ParseSigned(x, 10, 64) IN
            p[1] /\ DecText(MkInt("i", p[2], p[3])) = x
